@@ -368,6 +368,9 @@ def _h(*parts):
     return hashlib.sha1("\x1f".join(str(p) for p in parts).encode()).hexdigest()[:7]
 
 
+_ANON = [False]
+
+
 def _ctext(n, depth=0):
     """compact canonical rendering used only to derive names"""
     if n is None:
@@ -380,6 +383,9 @@ def _ctext(n, depth=0):
         return "…"
     k = n.get("k")
     if k == "local":
+        if _ANON[0]:
+            nm = n.get("name") or "?"
+            return nm if nm == "self" or re.match(r"^p\d", nm) else "\u00b7"
         return n.get("name") or "?"
     if k == "lit":
         return repr(n.get("v"))
@@ -761,7 +767,13 @@ def units(body):
                 continue
             if isinstance(v, (dict, list)):
                 go(v)
-    go(body)
+    # locals other than parameters are written anonymously: changing one definition changes one unit, not every
+    # statement that uses the variable
+    _ANON[0] = True
+    try:
+        go(body)
+    finally:
+        _ANON[0] = False
     return out
 
 
